@@ -114,6 +114,15 @@ func c09TemplateVectors(r *vrt.Rng, w int) []*big.Int {
 	for i := 0; i < 64; i++ {
 		vecs = append(vecs, join(r.Big(w), r.Big(w)))
 	}
+	// small second operands (divisors) under random first operands
+	for _, b := range []int64{1, 2, 3, 5, 7, 10, 13, 16, 100, 255, 256} {
+		if big.NewInt(b).BitLen() < w {
+			for i := 0; i < 3; i++ {
+				vecs = append(vecs, join(r.Big(w), big.NewInt(b)))
+			}
+			vecs = append(vecs, join(max, big.NewInt(b)))
+		}
+	}
 	return vecs
 }
 
@@ -184,6 +193,19 @@ func runC09One(cs *vrt.Case) {
 		src = fmt.Sprintf("package main\nfunc main(a, b uint%d) uint%d {\n\tx := a\n\ty := b\n\tfor i := 0; i < %d; i++ {\n\t\tif x > y {\n\t\t\tx = x - y\n\t\t} else {\n\t\t\ty = y - x\n\t\t}\n\t}\n\treturn x + y\n}\n", w, w, rounds)
 		what = "deep"
 		cs.Count("deep_programs", 1)
+	} else if cs.Idx%10 == 4 {
+		// division at widths above the exhaustive range, among them widths
+		// that are not powers of two, with small divisors among the vectors:
+		// the GMW divider normalises the divisor with a barrel shifter whose
+		// select bits depend on the width
+		k := cs.Idx / 10
+		w := []int{10, 12, 24, 11, 13, 20, 14, 28, 15, 33, 17, 34}[k%12]
+		op := []string{"a / b", "a % b"}[(k/12+k)%2]
+		ty := []string{"uint", "int"}[(k/2)%2]
+		src = fmt.Sprintf("package main\nfunc main(a, b %s%d) %s%d {\n\tif b == 0 {\n\t\treturn a\n\t}\n\treturn %s\n}\n", ty, w, ty, w, op)
+		what = "template"
+		cs.Count("template_programs", 1)
+		cs.Count("division_templates_above_the_exhaustive_range", 1)
 	} else if cs.Idx%10 == 8 || cs.Idx%10 == 3 {
 		// one operator at one width, small widths exhaustively: the
 		// builders the targets choose differ per width (ripple vs
@@ -311,6 +333,7 @@ func runC09One(cs *vrt.Case) {
 			}
 		}
 	}
+	reportedSig := map[string]bool{}
 	for i := range circs {
 		for k := range vecs {
 			cs.Evals++
@@ -370,8 +393,19 @@ func runC09One(cs *vrt.Case) {
 			if pinned {
 				key = vrt.WitnessKey(key, fmt.Sprintf("%s|%s|%s|%s", strings.ReplaceAll(src, "\n", " "), cf, vecs[k].Text(16), outs[i][k].Text(16)))
 			}
+			// a mismatch with the signature of the known divider finding must not
+			// hide the other vectors of the template: it is reported once per
+			// configuration and the scan goes on (a mismatch of any other kind
+			// ends the case)
+			knownSig := what == "template" && strings.Contains(key, "|template-division|") && !strings.HasSuffix(key, "wrong-value")
+			if !pinned && knownSig {
+				if reportedSig[key+cf.String()] {
+					continue
+				}
+				reportedSig[key+cf.String()] = true
+			}
 			cs.Violate(key, fmt.Sprintf("configuration %s changes the program's result (input %s): %s instead of %s", cf, vecs[k].Text(16), outs[i][k].Text(16), want[k].Text(16)), d)
-			if pinned {
+			if pinned || knownSig {
 				continue
 			}
 			return
